@@ -189,7 +189,7 @@ def ftp_level(plan):
 # ----------------------------------------------------------------------------- API level
 
 OPS = ["exists", "is_dir", "is_file", "mkdir", "mkdir_p", "mkdir_ok", "rmdir", "unlink", "list", "stat", "rename", "write_wb", "write_ab",
-       "write_rplus", "read_rb", "read_seek"]
+       "write_rplus", "read_rb", "read_seek", "write_await", "read_await"]
 APATHS = ["a", "a/f1", "a/sub", "a/sub/f2", "b", "top.txt", "e", "a/new", "a/f1/under", "nope/x", "b/moved", "a/sub/inner", "new"]
 
 
@@ -216,6 +216,23 @@ async def api_op(pio, base, op, p, q, data, off):
             return ("ok", ("dir" if S.S_ISDIR(st.st_mode) else "file", None if S.S_ISDIR(st.st_mode) else st.st_size))
         if op == "rename":
             return ("ok", await pio.rename(path, base / q) and None)
+        if op == "write_await":
+            # the documented non-context form: `file = await path_io.open(...)`, explicit close()
+            f = await pio.open(path, mode="ab" if off else "wb")
+            try:
+                await f.write(data)
+                await f.write(data[:2])
+            finally:
+                await f.close()
+            return ("ok", None)
+        if op == "read_await":
+            f = await pio.open(path, mode="rb")
+            try:
+                d1 = await f.read(off or -1)
+                d2 = await f.read(3)
+            finally:
+                await f.close()
+            return ("ok", (d1 + b"|" + d2).hex())
         if op.startswith("write_"):
             mode = {"write_wb": "wb", "write_ab": "ab", "write_rplus": "r+b"}[op]
             async with pio.open(path, mode=mode) as f:
